@@ -2,79 +2,219 @@
 
 No logic: every method on the execution path of `Mesh.grade` is printed as its outline — one entry
 `(nesting depth, kind, text)` per statement, in source order, `text` being `ast.unparse` of the statement (simple
-statements) or of its header (`for` target and iterable, `if`/`while` test).  Doc strings, comments and the
-construction of error messages are left out (a reworded message must not break an obligation); a `raise` is
-printed with the exception class only.  `Props/C01.lean` proves the outlines equal to the ones M-PROP mirrors
-(`Model/C01Order.lean`), so moving a statement (the consistency check before the propagation, the reset after the
-grading, `propagate_grading` before `copy_neighbours`, the `break` out of the work-list loop …) breaks a proof.
+statements) or of its header (`for` target and iterable, `if`/`while` test).  `Props/C01.lean` proves the outlines
+equal to the ones M-PROP mirrors (`Model/C01Order.lean`), so moving a statement (the consistency check before the
+propagation, the reset after the grading, `propagate_grading` before `copy_neighbours`, the `break` out of the
+work-list loop …) or changing a condition / operator / call breaks a proof.
+
+Normalisation (round 6b) — only statement-level edits change a table:
+* comments and blank lines are not in the `ast`; doc strings, `print(...)` / `warnings.warn(...)` statements are skipped;
+* type annotations are dropped (parameters, `->`, `x: T = v` reads `x = v`, a bare `x: T` is skipped);
+* every local name — parameters other than `self`/`cls`, assigned names, loop / comprehension targets — is renamed
+  `v0, v1, …` in order of first binding, so renaming a local changes nothing;
+* literals are printed by `ast.unparse` (`'a'` and `"a"`, `1e-7` and `0.0000001` read the same);
+* the construction of an error message is left out: a local all of whose uses lie inside `raise` statements (or inside the
+  statements that build such a local) is a *message name*; assignments to it, and loops that do nothing else, are
+  skipped; a `raise` is printed with the exception class only.
 """
 
 from __future__ import annotations
 
-MESSAGE_NAMES = {"message", "wire_descriptions"}
+import ast
+import inspect
+import textwrap
+from typing import List, Set
+
+REPORT_CALLS = {"print", "warnings.warn", "warn"}
+
+
+def _function(fn) -> ast.FunctionDef:
+    tree = ast.parse(textwrap.dedent(inspect.getsource(fn)))
+    node = tree.body[0]
+    assert isinstance(node, ast.FunctionDef), type(node)
+    return node
+
+
+def _targets(st) -> List[ast.AST]:
+    if isinstance(st, ast.Assign):
+        return list(st.targets)
+    if isinstance(st, (ast.AugAssign, ast.AnnAssign)):
+        return [st.target]
+    return []
+
+
+def _assigned_name(st):
+    ts = _targets(st)
+    if ts and all(isinstance(t, ast.Name) for t in ts):
+        return {t.id for t in ts}
+    return None
+
+
+def _message_names(fdef: ast.FunctionDef) -> Set[str]:
+    """locals whose every use is inside a `raise` or inside a statement that assigns to such a local"""
+    assigned: Set[str] = set()
+    for n in ast.walk(fdef):
+        names = _assigned_name(n) if isinstance(n, ast.stmt) else None
+        if names:
+            assigned |= names
+    msg = set(assigned)
+    changed = True
+    while changed:
+        changed = False
+
+        def visit(node, shielded):
+            nonlocal changed
+            if isinstance(node, ast.Raise):
+                shielded = True
+            if isinstance(node, ast.stmt):
+                names = _assigned_name(node)
+                if names and names <= msg:
+                    shielded = True
+            if isinstance(node, ast.Name) and isinstance(node.ctx, ast.Load) and node.id in msg and not shielded:
+                msg.discard(node.id)
+                changed = True
+            for ch in ast.iter_child_nodes(node):
+                visit(ch, shielded)
+
+        visit(fdef, False)
+    # a name that is never used at all is not a message name (keep the statement visible)
+    used = {n.id for n in ast.walk(fdef) if isinstance(n, ast.Name) and isinstance(n.ctx, ast.Load)}
+    return {m for m in msg if m in used}
+
+
+class _Binder(ast.NodeVisitor):
+    """local names in order of first binding: parameters except self/cls, then Store targets in source order"""
+
+    def __init__(self):
+        self.names: List[str] = []
+
+    def _add(self, n):
+        if n not in ("self", "cls") and n not in self.names:
+            self.names.append(n)
+
+    def visit_arg(self, node):
+        self._add(node.arg)
+
+    def visit_Name(self, node):
+        if isinstance(node.ctx, (ast.Store, ast.Del)):
+            self._add(node.id)
+
+
+class _Rename(ast.NodeTransformer):
+    def __init__(self, table):
+        self.table = table
+
+    def visit_Name(self, node):
+        if node.id in self.table:
+            return ast.copy_location(ast.Name(id=self.table[node.id], ctx=node.ctx), node)
+        return node
+
+    def visit_arg(self, node):
+        node.arg = self.table.get(node.arg, node.arg)
+        node.annotation = None
+        return node
+
+    def visit_AnnAssign(self, node):
+        self.generic_visit(node)
+        if node.value is None:
+            return None
+        return ast.copy_location(ast.Assign(targets=[node.target], value=node.value), node)
+
+
+def _is_report(st) -> bool:
+    if isinstance(st, ast.Expr) and isinstance(st.value, ast.Constant) and isinstance(st.value.value, str):
+        return True  # doc string / bare string
+    if isinstance(st, ast.Expr) and isinstance(st.value, ast.Call):
+        try:
+            return ast.unparse(st.value.func) in REPORT_CALLS
+        except Exception:
+            return False
+    return False
+
+
+class _Occurrences(ast.NodeVisitor):
+    """local names in the order they first occur (bound or used) in the emitted statements"""
+
+    def __init__(self, local_names):
+        self.local_names = local_names
+        self.names: List[str] = []
+
+    def visit_Name(self, node):
+        if node.id in self.local_names and node.id not in self.names:
+            self.names.append(node.id)
+
+    def visit_arg(self, node):
+        if node.arg in self.local_names and node.arg not in self.names:
+            self.names.append(node.arg)
 
 
 def _outline(fn):
-    import ast
-    import inspect
-    import textwrap
-
-    tree = ast.parse(textwrap.dedent(inspect.getsource(fn)))
-    fdef = tree.body[0]
-    out = []
-
-    def targets(st):
-        if isinstance(st, ast.Assign):
-            return [t for t in st.targets]
-        if isinstance(st, (ast.AugAssign, ast.AnnAssign)):
-            return [st.target]
-        return []
+    fdef = _function(fn)
+    msg = _message_names(fdef)
+    binder = _Binder()
+    binder.visit(fdef.args)
+    for st in fdef.body:
+        binder.visit(st)
+    local_names = set(binder.names)
+    entries = []  # (depth, kind, [ast nodes that make up the text], joiner)
 
     def is_message(st):
-        ts = targets(st)
-        return bool(ts) and all(isinstance(t, ast.Name) and t.id in MESSAGE_NAMES for t in ts)
+        names = _assigned_name(st)
+        return bool(names) and names <= msg
 
     def walk(stmts, depth):
-        n0 = len(out)
+        n0 = len(entries)
         for st in stmts:
-            if isinstance(st, ast.Expr) and isinstance(st.value, ast.Constant) and isinstance(st.value.value, str):
-                continue  # doc string
-            if is_message(st):
+            if _is_report(st) or is_message(st):
                 continue
+            if isinstance(st, ast.AnnAssign):
+                if st.value is None:
+                    continue
+                st = ast.copy_location(ast.Assign(targets=[st.target], value=st.value), st)
             if isinstance(st, ast.For):
-                mark = len(out)
-                out.append((depth, "for", f"{ast.unparse(st.target)} in {ast.unparse(st.iter)}"))
+                mark = len(entries)
+                entries.append((depth, "for", [st.target, st.iter], " in "))
                 if walk(st.body, depth + 1) == 0:
-                    del out[mark:]  # a loop that only builds a message
+                    del entries[mark:]  # a loop that only builds a message
                 if st.orelse:
-                    out.append((depth, "for-else", ""))
+                    entries.append((depth, "for-else", [], ""))
                     walk(st.orelse, depth + 1)
             elif isinstance(st, ast.While):
-                out.append((depth, "while", ast.unparse(st.test)))
+                entries.append((depth, "while", [st.test], ""))
                 walk(st.body, depth + 1)
             elif isinstance(st, ast.If):
-                out.append((depth, "if", ast.unparse(st.test)))
+                entries.append((depth, "if", [st.test], ""))
                 walk(st.body, depth + 1)
                 if st.orelse:
-                    out.append((depth, "else", ""))
+                    entries.append((depth, "else", [], ""))
                     walk(st.orelse, depth + 1)
             elif isinstance(st, ast.Raise):
                 exc = st.exc
-                name = ast.unparse(exc.func) if isinstance(exc, ast.Call) else (ast.unparse(exc) if exc else "")
-                out.append((depth, "raise", name))
+                cls = exc.func if isinstance(exc, ast.Call) else exc
+                entries.append((depth, "raise", [cls] if cls is not None else [], ""))
             elif isinstance(st, ast.Return):
-                out.append((depth, "return", ast.unparse(st.value) if st.value else ""))
+                entries.append((depth, "return", [st.value] if st.value is not None else [], ""))
             elif isinstance(st, ast.Break):
-                out.append((depth, "break", ""))
+                entries.append((depth, "break", [], ""))
             elif isinstance(st, ast.Continue):
-                out.append((depth, "continue", ""))
+                entries.append((depth, "continue", [], ""))
             elif isinstance(st, ast.Pass):
-                out.append((depth, "pass", ""))
+                entries.append((depth, "pass", [], ""))
             else:
-                out.append((depth, "do", ast.unparse(st)))
-        return len(out) - n0
+                entries.append((depth, "do", [st], ""))
+        return len(entries) - n0
 
     walk(fdef.body, 0)
+    occ = _Occurrences(local_names)
+    for _, _, nodes, _ in entries:
+        for n in nodes:
+            occ.visit(n)
+    table = {n: f"v{i}" for i, n in enumerate(occ.names)}
+    ren = _Rename(table)
+    out = []
+    for depth, kind, nodes, joiner in entries:
+        texts = [ast.unparse(ast.fix_missing_locations(ren.visit(n))) for n in nodes]
+        out.append((depth, kind, joiner.join(texts)))
     return out
 
 
@@ -90,6 +230,12 @@ def emit_all(emit) -> None:
     def unwrap(f):
         return f.fget if isinstance(f, property) else f
 
+    def one(name, fn, doc):
+        emit(name, typ, _outline(unwrap(fn)), f"outline of {doc}: (depth, kind, text) per statement, in source order")
+
+    guard = getattr(emit, "guard", lambda f, *a: f(*a))
+    # (no plain value tables: the models of C01/C02/C04 name no generated table of this module; every outline is an
+    # independent `ast` group — one that cannot be read does not stop the others)
     for name, fn, doc in [
         ("c01OrdMeshGrade", Mesh.grade, "Mesh.grade"),
         ("c01OrdGradeBlocks", BlockList.grade_blocks, "BlockList.grade_blocks"),
@@ -109,7 +255,7 @@ def emit_all(emit) -> None:
         ("c01OrdPropagateGrading", WirePropagateManager.propagate_grading, "WirePropagateManager.propagate_grading"),
         ("c01OrdCheck", WireManagerBase.check_consistency, "WireManagerBase.check_consistency"),
         ("c01OrdBaseReset", WireManagerBase.reset, "WireManagerBase.reset"),
-        ("c01OrdIsSimple", unwrap(WireManagerBase.is_simple), "WireManagerBase.is_simple"),
-        ("c01OrdLength", unwrap(WireManagerBase.length), "WireManagerBase.length"),
+        ("c01OrdIsSimple", WireManagerBase.is_simple, "WireManagerBase.is_simple"),
+        ("c01OrdLength", WireManagerBase.length, "WireManagerBase.length"),
     ]:
-        emit(name, typ, _outline(unwrap(fn)), f"outline of {doc}: (depth, kind, text) per statement, in source order")
+        guard(one, name, fn, doc)
